@@ -4,6 +4,7 @@ import (
 	"context"
 	"encoding/json"
 	"fmt"
+	"runtime"
 	"sort"
 	"strconv"
 	"strings"
@@ -208,6 +209,8 @@ type srvWorld struct {
 	causes    []stopCause
 	arrScan   int
 	started   bool
+	optK       int  // value of the Concurrency option (0: unset)
+	bigK       bool
 	restartEnd *End // if set, the server is started on this end as soon as WaitStatus returns
 	restarted  bool
 	activeAtRestart string
@@ -240,6 +243,8 @@ type srvCfg struct {
 	RPCInfo      bool
 	SeqIDs       bool    // unique ids 1,2,3,... (collide with callback ids)
 	AnswerAll    bool    // the peer answers every callback (never leaves one pending for good)
+	Layout       bool    // white space around and inside inbound messages
+	BigK         bool    // sometimes a large Concurrency with more than that many single held calls
 	Pushes       int     // max push actions (Notify/Callback)
 	Stops        int     // max Stop() actions
 	ForcePush    bool    // AllowPush always on
@@ -257,7 +262,14 @@ func (w *srvWorld) seq() int { return len(w.r.Sim.Events) }
 func (w *srvWorld) genID(n int) string {
 	g := w.r.Gen
 	if w.cfg.IDPool > 0 {
-		return strconv.Itoa(1 + g.Int("idpool", w.cfg.IDPool))
+		// a small pool so that reuse is frequent; it holds ids that differ only in
+		// their JSON form, which are different ids
+		pool := []string{`1`, `2`, `"1"`, `3`, `1.0`, `"2"`}
+		n := w.cfg.IDPool
+		if n > len(pool) {
+			n = len(pool)
+		}
+		return pool[g.Int("idpool", n)]
 	}
 	if w.cfg.SeqIDs {
 		return strconv.Itoa(n)
@@ -282,7 +294,8 @@ func (w *srvWorld) genScript() hscript {
 	s.RespectCtx = g.Chance("respect", 0.5)
 	// 0 result, 1 application error, 2 ctx.Err() if cancelled else result,
 	// 3 a pre-encoded result that is not valid JSON, 4 a pre-encoded result with inner line breaks
-	s.Outcome = g.Weighted("outcome", []int{6, 3, 2, 1, 1})
+	// 5 a nil result (must be answered "result":null), 6 a result of ~100 kB
+	s.Outcome = g.Weighted("outcome", []int{6, 3, 2, 1, 1, 1, 1})
 	// a handler may return any code, including the ones the protocol uses itself
 	s.ErrCode = []int{0, 0, 0, -32600, -32700, -32602, -32603, -32601}[g.Int("errcode", 8)]
 	return s
@@ -388,6 +401,17 @@ func (w *srvWorld) genMember(mi, idx, n int) *member {
 func (w *srvWorld) generate() {
 	g := w.r.Gen
 	nm := 1 + g.Int("nmsgs", w.cfg.MaxMsgs)
+	if w.bigK {
+		// more single held calls than the limit: all but two must be running at once
+		for mi := 0; mi < w.K+2; mi++ {
+			m := &member{Msg: mi, Kind: mCall, ID: strconv.Itoa(1000 + mi), Tag: fmt.Sprintf("m%d.0", mi), Enter: -1, Exit: -1, Logged: -1}
+			m.Script = hscript{Hold: true}
+			m.Raw = fmt.Sprintf(`{"jsonrpc":"2.0","id":%s,"method":"h","params":{"t":%q}}`, m.ID, m.Tag)
+			w.msgs = append(w.msgs, &message{Idx: mi, Members: []*member{m}, Raw: m.Raw, Sent: -1, Arrive: -1})
+			w.byTag[m.Tag] = m
+		}
+		return
+	}
 	n := 0
 	for mi := 0; mi < nm; mi++ {
 		msg := &message{Idx: mi, Sent: -1, Arrive: -1}
@@ -421,13 +445,24 @@ func (w *srvWorld) generate() {
 			parts = append(parts, m.Raw)
 		}
 		if msg.Batch {
-			msg.Raw = "[" + strings.Join(parts, ",") + "]"
+			sep := ","
+			if w.cfg.Layout {
+				sep = []string{",", " , ", ",\n", "\t,"}[g.Int("layoutsep", 4)]
+			}
+			msg.Raw = "[" + strings.Join(parts, sep) + "]"
+			if w.cfg.Layout && g.Chance("layoutinner", 0.3) {
+				msg.Raw = "[ " + strings.Join(parts, sep) + "\n]"
+			}
 		} else {
 			msg.Raw = parts[0]
 			if msg.Members[0].Defect == "non-object" && strings.HasPrefix(msg.Raw, "[") {
 				// a top-level array is a batch, not a non-object member: use a scalar
 				msg.Members[0].Raw, msg.Raw = `17`, `17`
 			}
+		}
+		if w.cfg.Layout && !(len(msg.Members) == 1 && msg.Members[0].Kind == mInvalid) {
+			// JSON allows white space around the top-level value
+			msg.Raw = []string{"", " ", "\n", "\t \r\n"}[g.Int("layoutpre", 4)] + msg.Raw + []string{"", " ", "\n"}[g.Int("layoutpost", 3)]
 		}
 		w.msgs = append(w.msgs, msg)
 	}
@@ -584,6 +619,13 @@ func (w *srvWorld) handle(ctx context.Context, req *jrpc2.Request) (any, error) 
 		// a result that cannot be encoded: the call must be answered with an error
 		val = json.RawMessage(fmt.Sprintf(`{"n":%d,"tag":%q,`, m.Enters, m.Tag))
 		m.HErr = "unencodable result"
+	case m.Script.Outcome == 5:
+		val = nil
+		m.Result = "null"
+	case m.Script.Outcome == 6:
+		pad := strings.Repeat("0123456789", 10000)
+		val = map[string]any{"tag": m.Tag, "n": m.Enters, "pad": pad}
+		m.Result = fmt.Sprintf(`{"n":%d,"pad":%q,"tag":%q}`, m.Enters, pad, m.Tag)
 	case m.Script.Outcome == 4:
 		val = json.RawMessage(fmt.Sprintf("{\n  \"n\": %d,\n\t\"tag\": %q\n}", m.Enters, m.Tag))
 		m.Result = fmt.Sprintf(`{"n":%d,"tag":%q}`, m.Enters, m.Tag)
@@ -884,6 +926,20 @@ func (w *srvWorld) setup() {
 	r := w.r
 	g := r.Gen
 	w.K = 1 + g.Int("K", w.cfg.KMax)
+	w.optK = w.K
+	if w.cfg.BigK && g.Chance("bigk", 0.12) {
+		// a large limit, or the option left unset (one slot per CPU)
+		switch g.Int("bigkkind", 3) {
+		case 0:
+			w.K, w.optK = 8+g.Int("bigkval", 9), 0
+			w.optK = w.K
+		case 1:
+			w.K, w.optK = 24, 24
+		case 2:
+			w.K, w.optK = runtime.NumCPU(), 0
+		}
+		w.bigK = true
+	}
 	w.push = g.Chance("allowpush", 0.5) || w.cfg.ForcePush
 	w.sEnd, w.pEnd = NewPipe(r, "srv", "peer")
 	w.sEnd.CloseUnblocks = g.Chance("closeunblocks", 0.5)
@@ -897,7 +953,7 @@ func (w *srvWorld) setup() {
 
 func (w *srvWorld) start() {
 	r := w.r
-	opts := &jrpc2.ServerOptions{Concurrency: w.K, AllowPush: w.push, RPCLog: w}
+	opts := &jrpc2.ServerOptions{Concurrency: w.optK, AllowPush: w.push, RPCLog: w}
 	w.srv = jrpc2.NewServer(w, opts)
 	r.Sim.Spawn("a-main", func() { w.srv.Start(w.sEnd); w.started = true })
 	r.Sim.Spawn("p-send", w.peerSender)
@@ -1134,7 +1190,10 @@ func (w *srvWorld) progressOf(dispatchedOnly bool) string {
 	}
 	unfinishedNoteBefore := false
 	for _, msg := range w.msgs {
-		if msg.Arrive < 0 || msg.Garbage || msg.Empty {
+		// a message counts from the moment the peer's Send of it has completed (at
+		// a quiescent point every started Send has): a server that leaves it
+		// unread in its inbox is delaying it just the same
+		if msg.Sent < 0 || msg.Garbage || msg.Empty {
 			continue
 		}
 		for _, m := range msg.Members {
@@ -1204,6 +1263,13 @@ func (w *srvWorld) checkResp(m *member, o respObj) string {
 		if o.ID != m.ID {
 			return fmt.Sprintf("response id %s, want %s (%s)", o.ID, m.ID, m.Tag)
 		}
+		if m.Enters == 0 {
+			// never handed to its handler: only a call cancelled before it got a slot
+			if o.HasErr && w.cancelRequested(m) {
+				return ""
+			}
+			return fmt.Sprintf("%s: answered %+v although its handler never ran", m.Tag, o)
+		}
 		if m.HErr != "" {
 			if !o.HasErr {
 				return fmt.Sprintf("%s: handler returned error %q but response is a result %s", m.Tag, m.HErr, o.Result)
@@ -1221,6 +1287,9 @@ func (w *srvWorld) checkResp(m *member, o respObj) string {
 			return fmt.Sprintf("%s: want -32601 with id %s, got %+v", m.Tag, m.ID, o)
 		}
 	case mRPCInfo:
+		if o.ID == m.ID && o.HasErr && w.cancelRequested(m) {
+			return "" // cancelled before it got a slot
+		}
 		if o.ID != m.ID || !o.HasRes || !strings.Contains(o.Result, `"methods"`) {
 			return fmt.Sprintf("%s: want server info with id %s, got %+v", m.Tag, m.ID, o)
 		}
